@@ -382,32 +382,64 @@ def r13_3(prog, rep):
                      "journal after the lock was granted: a record another execution appended while we waited is overwritten")
         else:
             rep.ok(rid, "fdlock/seek-to-end-under-lock", fl_.loc(), "every successful return of fdlock() has done lseek(fd, 0, SEEK_END) after the lock")
-    j = prog.fn("jlog_task", "echsx.c")
+    from ..inline import with_inlined
+    j0 = prog.fn("jlog_task", "echsx.c")
+    # the journal writer and its lock helpers are read as one piece of code (the helpers may have been folded into it)
+    j = with_inlined(prog, j0, [n_ for n_ in ("fdlock", "fdunlck") if prog.has_fn(n_, "echsx.c")])
     cfg = j.cfg
-    lk, ul = call_sites(j, "fdlock"), call_sites(j, "fdunlck")
+    F_UNLCK = 2     # <fcntl.h> on Linux/glibc: F_RDLCK 0, F_WRLCK 1, F_UNLCK 2
+
+    def lock_kind(c):
+        """'lock' / 'unlock' for an fcntl() record-lock call, from the l_type its struct flock is initialised with."""
+        if c.get("fn") != "fcntl" or len(c["a"]) < 3:
+            return None
+        a2 = strip_casts(cfg.resolve(c["a"][2]))
+        if a2.get("k") == "un" and a2.get("op") == "&":
+            a2 = strip_casts(a2["e"])
+        if a2.get("k") != "ref":
+            return None
+        for b_, i_, x_, ln_ in cfg.all_elems():
+            if isinstance(x_, dict) and x_.get("k") == "decl":
+                for d in x_["ds"]:
+                    if d["n"] == a2["n"] and d.get("init") is not None:
+                        ini = strip_casts(cfg.resolve(d["init"]))
+                        if ini.get("k") == "init":
+                            for fname, fval in ini["fs"]:
+                                if fname == "l_type":
+                                    v = const_eval(j, fval) if fval is not None else 0
+                                    return "unlock" if v == F_UNLCK else "lock"
+        return None
+    lk = [S for S in call_sites(j, "fcntl") if lock_kind(S.node) == "lock"]
+    ul = [S for S in call_sites(j, "fcntl") if lock_kind(S.node) == "unlock"]
     if not lk or not ul:
-        rep.fail(rid, "jlog_task/lock-pairing", j.loc(), "journal is written without fdlock/fdunlck (%d/%d)" % (len(lk), len(ul)))
+        rep.fail(rid, "jlog_task/lock-pairing", j.loc(), "journal is written without taking and releasing the record lock (%d/%d)" % (len(lk), len(ul)))
     else:
         L = lk[0]
-        # path-sensitive: ghost $locked is set on the success edge of fdlock() and cleared by fdunlck(); no exit may hold it
+        # path-sensitive: ghost $locked is set by the locking fcntl(), cleared on its failure edge and by the unlocking fcntl();
+        # no exit may hold it
         def effect(b, i, x, store):
             upd = {}
             for c in calls(x):
-                if c.get("fn") == "fdunlck":
+                k_ = lock_kind(c)
+                if k_ == "unlock":
                     upd["$locked"] = 0
+                elif k_ == "lock":
+                    upd["$locked"] = 1
             return upd
 
         def assume(b, si, cond, store):
             for truth in (True, False):
                 for a in cond_atoms(cond, truth):
-                    if len(a) == 5 and a[0] == "<" and int_value(a[4]) == 0 and "fdlock(" in a[1]:
-                        return {"$locked": 0 if (si == 0) == truth else 1}
+                    if len(a) == 5 and a[0] == "<" and int_value(a[4]) == 0:
+                        l_ = strip(a[3])
+                        if isinstance(l_, dict) and l_.get("k") == "call" and lock_kind(l_) == "lock" and (si == 0) == truth:
+                            return {"$locked": 0}       # the lock was not granted
             return None
-        counters = {l_["n"] for l_ in j.locals if l_.get("t") == "size_t"}
+        counters = {l_["n"] for l_ in j.locals if (l_.get("t") or "") in ("size_t", "int", "unsigned int")}
         w = AbsWalk(j, counters, effect=effect, assume=assume).run()
         held = [s_ for s_ in w.exit_stores if s_.get("$locked")]
         if w.exit_stores and not held:
-            rep.ok(rid, "jlog_task/unlock-on-every-exit", j.loc(L.line), "after a successful fdlock every feasible exit passes fdunlck (%d abstract states)" % len(w.visited))
+            rep.ok(rid, "jlog_task/unlock-on-every-exit", j.loc(L.line), "after a granted lock every feasible exit passes the unlocking fcntl() (%d abstract states)" % len(w.visited))
         else:
             rep.fail(rid, "jlog_task/unlock-on-every-exit", j.loc(L.line), "a feasible path leaves jlog_task with the journal still locked")
         fl = call_sites(j, "fdflush")
@@ -421,7 +453,8 @@ def r13_3(prog, rep):
         if bad:
             rep.fail(rid, "jlog_task/writes-under-lock", j.loc(bad[0].line), "journal text is written before the lock is taken")
         else:
-            rep.ok(rid, "jlog_task/writes-under-lock", j.loc(), "%d write sites all follow fdlock" % len(wr))
+            rep.ok(rid, "jlog_task/writes-under-lock", j.loc(), "%d write sites all follow the locking fcntl()" % len(wr))
+    j = j0
     # exit status / signal fields read t->xc
     txt = []
     for b, i, c, line in j.all_calls():
